@@ -563,7 +563,7 @@ func runCase(cs *Case, ci int, pty *ptyPair, em *emu, home string) (alive bool) 
 	logj(map[string]any{"ev": "case", "c": cs.ID, "ci": ci, "w": cs.W, "h": cs.H, "prompt": strInts(cs.Prompt),
 		"sources": dumpSources()})
 
-	if cs.DumpCfg {
+	dumpCfg := func(si int) {
 		binds := map[string][]any{}
 		for km, tbl := range rl.Config.Binds {
 			for seq, b := range tbl {
@@ -578,7 +578,10 @@ func runCase(cs *Case, ci int, pty *ptyPair, em *emu, home string) (alive bool) 
 		for name := range rl.Keymap.Commands() {
 			cmds = append(cmds, name)
 		}
-		logj(map[string]any{"ev": "config", "c": cs.ID, "binds": binds, "vars": vars, "commands": cmds})
+		logj(map[string]any{"ev": "config", "c": cs.ID, "s": si, "binds": binds, "vars": vars, "commands": cmds})
+	}
+	if cs.DumpCfg {
+		dumpCfg(-1)
 	}
 
 	alive = true
@@ -896,6 +899,17 @@ func runCase(cs *Case, ci int, pty *ptyPair, em *emu, home string) (alive bool) 
 					em.resize(a.W, a.N)
 				}
 				syscall.Kill(os.Getpid(), syscall.SIGWINCH)
+			case "rebind":
+				// the application changes a bind while the library is idle (parked in the read of the next key):
+				// S = "keymap|action", H = key sequence, N = 1 for a macro
+				if !awaitGate() && !isDone() {
+					reportHang("rebind")
+					break steps
+				}
+				if parts := strings.SplitN(a.S, "|", 2); len(parts) == 2 {
+					rl.Config.Bind(parts[0], string(unhex(a.H)), parts[1], a.N == 1)
+					dumpCfg(si)
+				}
 			case "sleep":
 				time.Sleep(time.Duration(a.N) * time.Millisecond)
 			case "stacks":
